@@ -20,6 +20,26 @@ FASTOR_INLINE bool does_alias(const AbstractTensor<Derived,DIM> &dst, const Tens
 // }
 
 
+// Expression nodes without a dedicated overload below are conservatively assumed to alias the destination,
+// which makes the staged assignments take their (always correct) temporary path
+template<typename Derived, size_t DIM, typename OtherDerived, size_t OtherDIM>
+FASTOR_INLINE bool does_alias(const AbstractTensor<Derived,DIM> &, const AbstractTensor<OtherDerived,OtherDIM> &) {
+    return true;
+}
+
+namespace internal {
+// operands of binary nodes can be plain numbers, these never alias
+template<typename Derived, size_t DIM, typename U, enable_if_t_<is_arithmetic_v_<U>,bool> = false>
+FASTOR_INLINE bool does_operand_alias(const AbstractTensor<Derived,DIM> &, const U &) {
+    return false;
+}
+template<typename Derived, size_t DIM, typename U, enable_if_t_<!is_arithmetic_v_<U>,bool> = false>
+FASTOR_INLINE bool does_operand_alias(const AbstractTensor<Derived,DIM> &dst, const U &src) {
+    return does_alias(dst.self(),src.self());
+}
+} // internal
+
+
 #define FASTOR_MAKE_ALIAS_FUNC_UNARY_OPS(NAME)\
 template<typename Derived, size_t DIM, typename OtherDerived, size_t OtherDIM>\
 FASTOR_INLINE bool does_alias(const AbstractTensor<Derived,DIM> &dst, const Unary ##NAME ## Op<OtherDerived,OtherDIM> &src) {\
@@ -52,7 +72,7 @@ FASTOR_MAKE_ALIAS_FUNC_UNARY_OPS(Trans)
 #define FASTOR_MAKE_ALIAS_FUNC_BINARY_OPS(NAME)\
 template<typename Derived, size_t DIM, typename TLhs, typename TRhs, size_t OtherDIM>\
 FASTOR_INLINE bool does_alias(const AbstractTensor<Derived,DIM> &dst, const Binary ##NAME ## Op<TLhs,TRhs,OtherDIM> &src) {\
-    return does_alias(dst.self(),src.lhs().self()) || does_alias(dst.self(),src.rhs().self());\
+    return internal::does_operand_alias(dst.self(),src.lhs()) || internal::does_operand_alias(dst.self(),src.rhs());\
 }\
 
 FASTOR_MAKE_ALIAS_FUNC_BINARY_OPS(Add)
